@@ -3,26 +3,33 @@ VARIANT = "san"
 RULE = "see stats"
 TIMEOUT = {"quick": 1500, "thorough": 6 * 3600, "search": 3600}
 PARTIAL = [
-    "circuit-level idempotence (legalize_idempotent_full_statement) is not proved; proved for all inputs are its two "
-    "mechanisms at segment level: order_preserved (exact key, 0<=orderingWidth<=1: a cell entirely left of another in the same "
-    "row sorts first, for every orderingY/orderingHeight/index), order_never_inverted_rounded (any monotone rounding, e.g. "
-    "binary32: the order can only differ on an exact tie of rounded keys), rowleg_no_conflict (in-order non-overlapping "
-    "targets: cost 0 at every push, placement = targets) and their combination legalize_idempotent_partial. NOT proved: "
-    "sortKeys is a sorted permutation, AbacusLegalizer::placeCell keeps a legal cell in its own segment, import/export "
-    "plumbing. Supported by re-legalizing legal placements (outputs of legalize and directly constructed) on the real code "
-    "and on the model.",
-    "the exact-key theorems assume the float key is exact (the property's own restriction |v| < 2^20); the driver uses the "
-    "binary32 model f32 and the stream compares the computed order itself (`order` lines).",
+    "circuit-level idempotence IS proved for all inputs with the exact ordering key: legalize_idempotent (C01 domain, all "
+    "movable cells one row high, Legal as C01 defines it over computeRows, OrientLegal, params accepted by check, "
+    "0<=orderingWidth<=1 => legalizeExact p c = ok c: positions, orientations, everything unchanged), via "
+    "cell_order_sorted_perm (sortKeys is a sorted permutation), abacus_keeps_own_row (placeCell search returns the own segment "
+    "at cost 0, legalizers unchanged), abacus_pass_fixed, legalize_idempotent_any_key (any key rounding that keeps the "
+    "left-to-right order). NOT proved: that the binary32 key as compiled keeps that order on the property's domain — "
+    "legalize_idempotent_binary32 takes 'the f32 key of every movable cell equals the exact key' as a hypothesis (it is the "
+    "property's own assumption; |v| < 2^20 alone does not imply it for non-dyadic weights, and for huge orderingHeight the "
+    "statement is false for binary32); supported by the `order` sub-stream and by re-legalizing legal placements on the real "
+    "code and on the f32 model.",
+    "OrientLegal is an explicit hypothesis (C01's Legal says nothing about orientations): no movable cell has orientation "
+    "INVALID and a polarised cell already has the orientation cellOrientationInRow prescribes in its segment; the harness' "
+    "legal placements satisfy it (outputs of legalize, and constructed ones carry the row-demanded orientation).",
+    "'legalizing twice = legalizing once' (legalize_twice) takes domain membership and legality of the first result as "
+    "hypotheses: that the first result is Legal is C01's legalize_legal (in progress there), OrientLegal of the result is "
+    "not proved; both are evaluated by the before/after oracle on the real code.",
 ]
 ASSUMPTIONS = [
     "same model and assumptions as C01 (lean/ColoVerif/Model/Legalize.lean)",
     "legal placement = positions legal by the independent oracle and polarised cells carry the orientation their row demands",
     "KF-C11-1 classifier: the run's legalization.orderingWidth is outside [0,1]",
 ]
-LEVEL_TEXT = ("Lean 4 theorems over the executable legalization model: order preservation of the ordering key for orderingWidth in "
-              "[0,1] (exact key, and non-inversion under any monotone rounding), zero-cost/no-move of RowLegalizer on conflict-free "
-              "targets, their single-segment combination, and the kernel-evaluated negation for orderingWidth = 2 (KF-C11-1 "
-              "witness, replayed on the code). Tied to Circuit::legalize by a differential stream of legal placements "
+LEVEL_TEXT = ("Lean 4 theorems over the executable legalization model: circuit-level idempotence legalize p c = ok c for every legal "
+              "single-row circuit of the C01 domain with orderingWidth in [0,1] (exact key; binary32 key under key exactness), built "
+              "from order preservation of the ordering key (exact key, and non-inversion under any monotone rounding), the sorted-"
+              "permutation property of computeCellOrder, abacus_keeps_own_row, zero-cost/no-move of RowLegalizer on conflict-free "
+              "targets, and the kernel-evaluated negation for orderingWidth = 2 (KF-C11-1 witness, replayed on the code). Tied to Circuit::legalize by a differential stream of legal placements "
               "(legalize then legalize again) with parameters over the whole accepted range; the direct oracle compares x/y "
               "before and after on the real code")
 LEVEL_NOTE = ("Trusted: Lean kernel (axioms propext/Classical.choice/Quot.sound only), the model's tie to the code (differential), "
